@@ -60,6 +60,9 @@ PARTIAL = [
     "requests refused before dispatch (unknown method, bad parameters, version gate, bad token) produce no record by design and are "
     "outside the property's 'dispatched call'",
     "sticky sessions, tracing ids, sampling and the async queue handler are outside the model (keys never present on these paths)",
+    "the two input-refusal error paths of _run_http_exchange_turn (unresolvable external pointer -> 500, input batch refused by the "
+    "declared schema -> 400) have their http_status extracted and pinned, but generated exchanges send inline conforming batches, so "
+    "the model's exchange turn only takes the state.process() path",
     "status theorems for streams are stated for fully consumed calls (producer drained, exchange not continued after its first "
     "error); for partially consumed HTTP producers the server runs ahead of the client and only per-response statements hold",
 ]
